@@ -588,3 +588,111 @@ pub fn eval_lib<const K: usize>(t: &AffTree<K>, x: &[Q]) -> Option<Vec<f64>> {
     let xv = ndarray::Array1::from_iter(x.iter().map(|q| q.to_f64()));
     t.evaluate(&xv).map(|a| a.to_vec())
 }
+
+impl Ref {
+    /// number of guard rows with zero slack on the path taken by x (0 = interior of its cell)
+    pub fn boundary_count(&self, x: &[Q]) -> usize {
+        let mut cur = self;
+        let mut cnt = 0;
+        loop {
+            match cur {
+                Ref::Leaf { .. } => return cnt,
+                Ref::Split(parts) => {
+                    // a point on a hyperplane of any guard of this split is a boundary input
+                    let mut seen: Vec<&Row> = Vec::new();
+                    for (g, _) in parts {
+                        for r in g {
+                            if !r.is_zero_row() && r.slack(x).is_zero() && !seen.iter().any(|s| s.a == r.a || s.a.iter().zip(&r.a).all(|(p, q)| p == &-q)) {
+                                seen.push(r);
+                                cnt += 1;
+                            }
+                        }
+                    }
+                    let next = parts.iter().find(|(g, _)| g.iter().all(|r| r.holds(x)));
+                    match next {
+                        Some((_, sub)) => cur = sub,
+                        None => return cnt,
+                    }
+                }
+            }
+        }
+    }
+}
+
+/// Compare a library tree with a reference function: well-formedness, almost-everywhere equality
+/// (exact cell comparison) and exact evaluation at the given inputs.
+pub struct CompareOut {
+    pub stats: EquivStats,
+    pub inputs: usize,
+    pub on_boundary: usize,
+    pub multi_boundary: usize,
+    pub undefined_inputs: usize,
+}
+
+pub fn compare_tree<const K: usize>(
+    what: &str,
+    t: &AffTree<K>,
+    reference: &Ref,
+    inputs: &[QVec],
+    mode: &EquivMode,
+) -> Result<CompareOut, (String, serde_json::Value)> {
+    let n = t.in_dim;
+    well_formed(t, None).map_err(|e| (format!("{what}: tree is not well-formed: {e}"), serde_json::Value::Null))?;
+    let x = Ref::from_afftree(t);
+    let stats = match equiv(&x, reference, n, mode) {
+        Ok(s) => s,
+        Err(m) => {
+            let lib = eval_lib(t, &m.point);
+            return Err((
+                format!("{what}: the tree differs from the reference function on a full-dimensional region"),
+                serde_json::json!({
+                    "input": m.point.iter().map(|q| q.to_string()).collect::<Vec<_>>(),
+                    "input_f64": m.point.iter().map(|q| q.to_f64()).collect::<Vec<_>>(),
+                    "tree_cell_value": m.lhs.map(|v| v.iter().map(|q| q.to_string()).collect::<Vec<_>>()),
+                    "reference_value": m.rhs.map(|v| v.iter().map(|q| q.to_string()).collect::<Vec<_>>()),
+                    "library_evaluate": lib,
+                    "tree_leaf_index": m.lhs_tag,
+                }),
+            ));
+        }
+    };
+    let mut out = CompareOut { stats, inputs: 0, on_boundary: 0, multi_boundary: 0, undefined_inputs: 0 };
+    for p in inputs {
+        let exp = reference.eval(p);
+        let xv = ndarray::Array1::from_iter(p.iter().map(|q| q.to_f64()));
+        let got = crate::runner::guard(|| t.evaluate(&xv)).map_err(|pm| (format!("{what}: evaluate panicked: {pm}"), serde_json::json!({"input": xv.to_vec()})))?;
+        out.inputs += 1;
+        let bc = reference.boundary_count(p);
+        if bc >= 1 {
+            out.on_boundary += 1;
+        }
+        if bc >= 2 {
+            out.multi_boundary += 1;
+        }
+        if exp.is_none() {
+            out.undefined_inputs += 1;
+        }
+        let ok = match (&got, &exp) {
+            (None, None) => true,
+            (Some(g), Some(e)) => {
+                if mode.tol == 0.0 {
+                    g.len() == e.len() && g.iter().zip(e).all(|(a, b)| a.is_finite() && &Q::from_f64(*a) == b)
+                } else {
+                    g.len() == e.len() && g.iter().zip(e).all(|(a, b)| (a - b.to_f64()).abs() <= mode.tol * (1.0 + b.to_f64().abs()))
+                }
+            }
+            _ => false,
+        };
+        if !ok {
+            return Err((
+                format!("{what}: evaluate() disagrees with the reference at an input (boundary rows hit: {bc})"),
+                serde_json::json!({
+                    "input": xv.to_vec(),
+                    "library_evaluate": got.map(|g| g.to_vec()),
+                    "reference_value": exp.map(|v| v.iter().map(|q| q.to_string()).collect::<Vec<_>>()),
+                }),
+            ));
+        }
+    }
+    Ok(out)
+}
